@@ -23,11 +23,11 @@ theorem Inv.base {c : Cfg} {ar aq : Nat} {s : S} (h : Inv c ar aq s) : Base c ar
   ⟨h.k1, h.k2, h.k4, h.k9, h.k10, h.k11, h.k12, h.k13, h.k14, h.k20, h.k21, h.k22, h.k31⟩
 
 /-- a cleaned state with the worker gone satisfies the invariant -/
-theorem tail_clean (c : Cfg) (ar aq : Nat) (s : S) (b : Base c ar aq s) (hcl : s.cleaned = true)
+theorem tail_clean (c : Cfg) (ar aq : Nat) (s : S) (b : Base c ar aq s) (hcl : s.cleaned = true) (h33 : K33 c s)
     (ph : Phase) (ps : Nat) (nt : Bool) :
     Inv c ar aq { s with running := false, phase := ph, pass := ps, notify := nt } := by
   obtain ⟨k1, k2, k4, k9, k10, k11, k12, k13, k14, k20, k21, k22, k31⟩ := b
-  refine ⟨?_, k1, k2, ?_, k4, ?_, ?_, ?_, ?_, k9, k10, k11, k12, k13, k14, ?_, ?_, ?_, ?_, ?_, k20, k21, k22, ?_, ?_, ?_, ?_, ?_, ?_, ?_, ?_, k31, ?_⟩
+  refine ⟨?_, k1, k2, ?_, k4, ?_, ?_, ?_, ?_, k9, k10, k11, k12, k13, k14, ?_, ?_, ?_, ?_, ?_, k20, k21, k22, ?_, ?_, ?_, ?_, ?_, ?_, ?_, ?_, k31, ?_, h33⟩
   · simp [K0, hcl]
   · intro _; exact hcl
   · intro _; exact hcl
@@ -64,6 +64,12 @@ theorem cleanFinish_base (c : Cfg) (ar aq : Nat) (s2 : S) (hcl2 : s2.cleaned = t
   · exact h22
   · intro hh; apply h31; rw [← hcu.1]; exact hh
   · exact hcl2
+
+/-- `cleanBody` only appends upstream-reset events and the access-log event -/
+theorem cleanBody_snd (c : Cfg) (s : S) : snd (cleanBody c s).trace = snd s.trace := by
+  unfold cleanBody
+  simp only
+  split <;> simp [snd_append, sndStep]
 
 /-- `cleanBody` on a not yet cleaned state whose client stream is dead or will be reset -/
 theorem cleanBody_base (c : Cfg) (ar aq : Nat) (s : S) (b : Base c ar aq s) (hcl : s.cleaned = false)
@@ -109,7 +115,7 @@ theorem reenter_end (s : S) : reenter s .End = { s with running := false, phase 
   simp [reenter]
 
 /-- the downstream was reset: `ResetStream` cleans the stream and the worker returns -/
-theorem tail_down (c : Cfg) (ar aq : Nat) (s : S) (b : Base c ar aq s) (hcl : s.cleaned = false)
+theorem tail_down (c : Cfg) (ar aq : Nat) (s : S) (b : Base c ar aq s) (hcl : s.cleaned = false) (hdr : s.downReset = true)
     (hlive : (s.up.isSome && !s.procDone && !c.oneway) = false → liveCount s.streams = 0) :
     Inv c ar aq (reenter (dsResetStream c s) .End) := by
   rw [reenter_end]
@@ -119,7 +125,7 @@ theorem tail_down (c : Cfg) (ar aq : Nat) (s : S) (b : Base c ar aq s) (hcl : s.
     obtain ⟨k1, k2, k4, k9, k10, k11, k12, k13, k14, k20, k21, k22, k31⟩ := b
     exact ⟨k1, k2, k4, k9, k10, k11, k12, k13, k14, k20, k21, k22, k31⟩
   have := cleanBody_base c ar aq { s with respCode := TimeoutExceptionCode } hb hcl hlive
-  have h := tail_clean c ar aq _ this.1 this.2 .End (cleanBody c { s with respCode := TimeoutExceptionCode }).pass
+  have h := tail_clean c ar aq _ this.1 this.2 (fun _ => Or.inr (Or.inl (by simpa using hdr))) .End (cleanBody c { s with respCode := TimeoutExceptionCode }).pass
     (cleanBody c { s with respCode := TimeoutExceptionCode }).notify
   exact h
 
@@ -134,7 +140,7 @@ theorem tail_direct (c : Cfg) (ar aq : Nat) (s : S) (b : Base c ar aq s) (hrun :
     simp [reenter, hpass, loopBudget]
   rw [hre]
   obtain ⟨k1, k2, k4, k9, k10, k11, k12, k13, k14, k20, k21, k22, k31⟩ := b
-  refine ⟨?_, k1, k2, h3, k4, ?_, h6, ?_, ?_, ?_, k10, k11, k12, ?_, k14, ?_, ?_, ?_, ?_, ?_, k20, k21, k22, ?_, ?_, ?_, ?_, ?_, ?_, ?_, ?_, ?_, ?_⟩
+  refine ⟨?_, k1, k2, h3, k4, ?_, h6, ?_, ?_, ?_, k10, k11, k12, ?_, k14, ?_, ?_, ?_, ?_, ?_, k20, k21, k22, ?_, ?_, ?_, ?_, ?_, ?_, ?_, ?_, ?_, ?_, (fun hh => absurd hh (by simp [hcl]))⟩
   · simp [K0, hrun, hcl]
   · intro hh; simp [hpd] at hh
   · intro _; exact ⟨hsr, rfl⟩
@@ -171,7 +177,7 @@ theorem tail_oneway (c : Cfg) (ar aq : Nat) (s : S) (b : Base c ar aq s) (hrun :
   rw [hre]
   obtain ⟨k1, k2, k4, k9, k10, k11, k12, k13, k14, k20, k21, k22, k31⟩ := b
   have hlc := k20 how
-  refine ⟨?_, k1, k2, h3, k4, ?_, h6, ?_, ?_, ?_, k10, k11, k12, ?_, k14, ?_, ?_, ?_, ?_, ?_, k20, k21, k22, ?_, ?_, ?_, ?_, ?_, ?_, ?_, ?_, ?_, ?_⟩
+  refine ⟨?_, k1, k2, h3, k4, ?_, h6, ?_, ?_, ?_, k10, k11, k12, ?_, k14, ?_, ?_, ?_, ?_, ?_, k20, k21, k22, ?_, ?_, ?_, ?_, ?_, ?_, ?_, ?_, ?_, ?_, (fun hh => absurd hh (by simp [hcl]))⟩
   · simp [K0, hrun, hcl]
   · intro hh; simp [hpd] at hh
   · intro _; exact ⟨hsr, rfl⟩
@@ -214,7 +220,7 @@ theorem tail_retry (c : Cfg) (ar aq : Nat) (s : S) (b : Base c ar aq s) (hrun : 
     simp [reenter, hpass, loopBudget, hk]
   rw [hre]
   obtain ⟨k1, k2, k4, k9, k10, k11, k12, k13, k14, k20, k21, k22, k31⟩ := b
-  refine ⟨?_, k1, k2, h3, k4, ?_, h6, ?_, ?_, k9, k10, k11, k12, ?_, k14, ?_, ?_, ?_, ?_, ?_, k20, k21, k22, ?_, ?_, ?_, ?_, ?_, ?_, ?_, ?_, k31, ?_⟩
+  refine ⟨?_, k1, k2, h3, k4, ?_, h6, ?_, ?_, k9, k10, k11, k12, ?_, k14, ?_, ?_, ?_, ?_, ?_, k20, k21, k22, ?_, ?_, ?_, ?_, ?_, ?_, ?_, ?_, k31, ?_, (fun hh => absurd hh (by simp [hcl]))⟩
   · simp [K0, hrun, hcl]
   · intro hh; simp [hpd] at hh
   · intro _; exact ⟨rfl, hdir⟩
